@@ -8,6 +8,9 @@ def b (s : String) : Bytes := s.toUTF8.toList
 /-- the harness' fixture (harness/src/groups/c17.rs `FILES`): decoded path, directives on the first line.
 Address 1 = 10.0.0.1 (listed), others are not. -/
 def files : List (String × List Directive) := [
+  ("/ipscachedur.html", [.allowIps [1], .cache .maxAge]),
+  ("/ipscacheqm.html", [.allowIps [1], .cache .queryMatters]),
+  ("/hidecache.html", [.hide, .cache .maxAge]),
   ("/ips.html", [.allowIps [1]]),
   ("/ipscache.html", [.allowIps [1], .cache .full]),
   ("/cacheips.html", [.cache .full, .allowIps [1]]),
